@@ -70,24 +70,78 @@ func (m *Mutex) Unlock() {
 
 type RWMutex struct {
 	real    sync.RWMutex
-	writer  bool
+	writer  bool // a writer holds the lock
+	pending bool // a writer has announced itself and waits for the readers to leave
 	readers int
 }
 
+// Lock follows the documented behaviour of sync.RWMutex: writers exclude each other from the moment
+// they call Lock; a writer that finds readers announces itself (one step) and from then on NEW
+// readers block until it has acquired and released the lock; it acquires when the readers that
+// were inside have left (second step). With no readers inside, announcing and acquiring are one
+// atomic step, as in the original (a single atomic add on readerCount).
 func (m *RWMutex) Lock() {
 	if !core.Controlled {
 		m.real.Lock()
 		return
 	}
-	core.Point(core.KLock, unsafe.Pointer(m), func() bool { return !m.writer && m.readers == 0 })
+	core.Point(core.KLock, unsafe.Pointer(m), func() bool { return !m.writer && !m.pending })
 	if core.Exiting() {
 		return
 	}
-	if m.writer || m.readers != 0 {
+	if m.writer || m.pending {
 		panic("vsync: Lock of a held RWMutex in a sequential phase (would block forever)")
 	}
+	if m.readers == 0 {
+		m.writer = true
+		core.Done(core.KLock, unsafe.Pointer(m), 0)
+		return
+	}
+	m.pending = true
+	core.Done(core.KLock, unsafe.Pointer(m), 1)
+	core.Point(core.KLock, unsafe.Pointer(m), func() bool { return m.readers == 0 })
+	if core.Exiting() {
+		return
+	}
+	if m.readers != 0 {
+		panic("vsync: Lock of a read-locked RWMutex in a sequential phase (would block forever)")
+	}
+	m.pending = false
 	m.writer = true
-	core.Done(core.KLock, unsafe.Pointer(m), 0)
+	core.Done(core.KLock, unsafe.Pointer(m), 2)
+}
+
+// TryLock / TryRLock never block and never announce.
+func (m *RWMutex) TryLock() bool {
+	if !core.Controlled {
+		return m.real.TryLock()
+	}
+	core.Point(core.KLock, unsafe.Pointer(m), nil)
+	if core.Exiting() {
+		return false
+	}
+	ok := !m.writer && !m.pending && m.readers == 0
+	if ok {
+		m.writer = true
+	}
+	core.Done(core.KLock, unsafe.Pointer(m), 3)
+	return ok
+}
+
+func (m *RWMutex) TryRLock() bool {
+	if !core.Controlled {
+		return m.real.TryRLock()
+	}
+	core.Point(core.KRLock, unsafe.Pointer(m), nil)
+	if core.Exiting() {
+		return false
+	}
+	ok := !m.writer && !m.pending
+	if ok {
+		m.readers++
+	}
+	core.Done(core.KRLock, unsafe.Pointer(m), 3)
+	return ok
 }
 
 func (m *RWMutex) Unlock() {
@@ -111,11 +165,11 @@ func (m *RWMutex) RLock() {
 		m.real.RLock()
 		return
 	}
-	core.Point(core.KRLock, unsafe.Pointer(m), func() bool { return !m.writer })
+	core.Point(core.KRLock, unsafe.Pointer(m), func() bool { return !m.writer && !m.pending })
 	if core.Exiting() {
 		return
 	}
-	if m.writer {
+	if m.writer || m.pending {
 		panic("vsync: RLock of a write-locked RWMutex in a sequential phase (would block forever)")
 	}
 	m.readers++
@@ -145,10 +199,17 @@ type rlocker RWMutex
 func (r *rlocker) Lock()   { (*RWMutex)(r).RLock() }
 func (r *rlocker) Unlock() { (*RWMutex)(r).RUnlock() }
 
+// WaitGroup models the original's state word: a counter and the number of registered waiters. A
+// Wait that finds a non-zero counter registers (one step) and is released when an Add brings the
+// counter to zero; its wake-up is a SEPARATE step, and like the original it panics there if the
+// group has been reused in between ("WaitGroup is reused before previous Wait has returned").
+// Add panics like the original on a negative counter and on a first Add racing with a waiter.
 type WaitGroup struct {
-	real sync.WaitGroup
-	n    int
-	vc   core.VC
+	real    sync.WaitGroup
+	n       int
+	waiters int
+	gen     int // incremented when the registered waiters are released
+	vc      core.VC
 }
 
 func (w *WaitGroup) Add(delta int) {
@@ -164,6 +225,13 @@ func (w *WaitGroup) Add(delta int) {
 	if w.n < 0 {
 		panic("sync: negative WaitGroup counter")
 	}
+	if w.waiters != 0 && delta > 0 && w.n == delta {
+		panic("sync: WaitGroup misuse: Add called concurrently with Wait")
+	}
+	if w.n == 0 && w.waiters > 0 {
+		w.waiters = 0
+		w.gen++
+	}
 	core.Release(&w.vc, true)
 	core.Done(core.KWGAdd, unsafe.Pointer(w), uint64(int64(delta)))
 }
@@ -175,15 +243,30 @@ func (w *WaitGroup) Wait() {
 		w.real.Wait()
 		return
 	}
-	core.Point(core.KWGWait, unsafe.Pointer(w), func() bool { return w.n == 0 })
+	core.Point(core.KWGWait, unsafe.Pointer(w), nil)
 	if core.Exiting() {
 		return
 	}
-	if w.n != 0 {
+	if w.n == 0 {
+		core.Acquire(&w.vc)
+		core.Done(core.KWGWait, unsafe.Pointer(w), 0)
+		return
+	}
+	if core.Sequential() {
 		panic("vsync: WaitGroup.Wait with a non-zero counter in a sequential phase (would block forever)")
 	}
+	w.waiters++
+	my := w.gen
+	core.Done(core.KWGWait, unsafe.Pointer(w), 1)
+	core.Point(core.KWGWait, unsafe.Pointer(w), func() bool { return w.gen != my })
+	if core.Exiting() {
+		return
+	}
+	if w.n != 0 || w.waiters != 0 {
+		panic("sync: WaitGroup is reused before previous Wait has returned")
+	}
 	core.Acquire(&w.vc)
-	core.Done(core.KWGWait, unsafe.Pointer(w), 0)
+	core.Done(core.KWGWait, unsafe.Pointer(w), 2)
 }
 
 type Once struct {
@@ -203,4 +286,279 @@ func (o *Once) Do(f func()) {
 		defer func() { o.done = true }()
 		f()
 	}
+}
+
+// Pool: Get hands out the most recently Put object (the case in which sharing bugs show; the
+// original may also drop objects at any time, which only means fewer objects are shared), else
+// New(). Get and Put are scheduling points; Put(x) happens before the Get that returns x.
+type Pool struct {
+	New func() any
+
+	real  sync.Pool
+	items []poolItem
+	exec  *core.Exec // the execution the items belong to: objects never survive into the next execution
+}
+
+func (p *Pool) fresh() {
+	if p.exec != core.X {
+		p.exec, p.items = core.X, nil
+	}
+}
+
+type poolItem struct {
+	v  any
+	vc core.VC
+}
+
+func (p *Pool) Get() any {
+	if !core.Controlled {
+		if p.real.New == nil {
+			p.real.New = p.New
+		}
+		return p.real.Get()
+	}
+	core.Point(core.KOnce, unsafe.Pointer(p), nil)
+	if core.Exiting() {
+		return nil
+	}
+	p.fresh()
+	if n := len(p.items); n > 0 {
+		it := p.items[n-1]
+		p.items = p.items[:n-1]
+		core.Acquire(&it.vc)
+		core.Done(core.KOnce, unsafe.Pointer(p), 1)
+		return it.v
+	}
+	core.Done(core.KOnce, unsafe.Pointer(p), 2)
+	if p.New != nil {
+		return p.New()
+	}
+	return nil
+}
+
+func (p *Pool) Put(x any) {
+	if !core.Controlled {
+		p.real.Put(x)
+		return
+	}
+	core.Point(core.KOnce, unsafe.Pointer(p), nil)
+	if core.Exiting() || x == nil {
+		return
+	}
+	p.fresh()
+	it := poolItem{v: x}
+	core.Release(&it.vc, false)
+	p.items = append(p.items, it)
+	core.Done(core.KOnce, unsafe.Pointer(p), 3)
+}
+
+// OnceFunc / OnceValue as in the original, built on the scheduler-owned Once.
+func OnceFunc(f func()) func() {
+	var o Once
+	return func() { o.Do(f) }
+}
+
+func OnceValue[T any](f func() T) func() T {
+	var o Once
+	var v T
+	return func() T {
+		o.Do(func() { v = f() })
+		return v
+	}
+}
+
+// Map: the API of sync.Map over a plain map; every method is one atomic step.
+type Map struct {
+	real sync.Map
+	m    map[any]any
+	keys []any // insertion order: Range is deterministic
+	vc   core.VC
+}
+
+func (m *Map) step(arg uint64, f func()) {
+	core.Point(core.KOnce, unsafe.Pointer(m), nil)
+	if core.Exiting() {
+		return
+	}
+	if m.m == nil {
+		m.m = map[any]any{}
+	}
+	core.Acquire(&m.vc)
+	f()
+	core.Release(&m.vc, true)
+	core.Done(core.KOnce, unsafe.Pointer(m), arg)
+}
+
+func (m *Map) Load(key any) (value any, ok bool) {
+	if !core.Controlled {
+		return m.real.Load(key)
+	}
+	m.step(1, func() { value, ok = m.m[key] })
+	return
+}
+
+func (m *Map) Store(key, value any) {
+	if !core.Controlled {
+		m.real.Store(key, value)
+		return
+	}
+	m.step(2, func() { m.put(key, value) })
+}
+
+func (m *Map) put(key, value any) {
+	if _, ok := m.m[key]; !ok {
+		m.keys = append(m.keys, key)
+	}
+	m.m[key] = value
+}
+
+func (m *Map) del(key any) {
+	if _, ok := m.m[key]; ok {
+		delete(m.m, key)
+		for i, k := range m.keys {
+			if k == key {
+				m.keys = append(m.keys[:i:i], m.keys[i+1:]...)
+				break
+			}
+		}
+	}
+}
+
+func (m *Map) LoadOrStore(key, value any) (actual any, loaded bool) {
+	if !core.Controlled {
+		return m.real.LoadOrStore(key, value)
+	}
+	m.step(3, func() {
+		if actual, loaded = m.m[key]; !loaded {
+			m.put(key, value)
+			actual = value
+		}
+	})
+	return
+}
+
+func (m *Map) LoadAndDelete(key any) (value any, loaded bool) {
+	if !core.Controlled {
+		return m.real.LoadAndDelete(key)
+	}
+	m.step(4, func() {
+		value, loaded = m.m[key]
+		m.del(key)
+	})
+	return
+}
+
+func (m *Map) Delete(key any) { m.LoadAndDelete(key) }
+
+func (m *Map) Swap(key, value any) (previous any, loaded bool) {
+	if !core.Controlled {
+		return m.real.Swap(key, value)
+	}
+	m.step(5, func() {
+		previous, loaded = m.m[key]
+		m.put(key, value)
+	})
+	return
+}
+
+func (m *Map) CompareAndSwap(key, old, new any) (swapped bool) {
+	if !core.Controlled {
+		return m.real.CompareAndSwap(key, old, new)
+	}
+	m.step(6, func() {
+		if v, ok := m.m[key]; ok && v == old {
+			m.m[key] = new
+			swapped = true
+		}
+	})
+	return
+}
+
+func (m *Map) CompareAndDelete(key, old any) (deleted bool) {
+	if !core.Controlled {
+		return m.real.CompareAndDelete(key, old)
+	}
+	m.step(7, func() {
+		if v, ok := m.m[key]; ok && v == old {
+			m.del(key)
+			deleted = true
+		}
+	})
+	return
+}
+
+// Range visits the keys present when each is reached (one step per visited key, like the
+// original it is not a snapshot).
+func (m *Map) Range(f func(key, value any) bool) {
+	if !core.Controlled {
+		m.real.Range(f)
+		return
+	}
+	var keys []any
+	m.step(8, func() { keys = append(keys, m.keys...) })
+	for _, k := range keys {
+		v, ok := m.Load(k)
+		if ok && !f(k, v) {
+			return
+		}
+	}
+}
+
+func (m *Map) Clear() {
+	if !core.Controlled {
+		m.real.Range(func(k, _ any) bool { m.real.Delete(k); return true })
+		return
+	}
+	m.step(9, func() { m.m, m.keys = map[any]any{}, nil })
+}
+
+// Cond: Wait releases L, blocks until a Signal / Broadcast issued after it started waiting, and
+// re-acquires L. Signal wakes the longest waiter.
+type Cond struct {
+	L Locker
+
+	waiting []*condWaiter
+}
+
+type condWaiter struct{ woken bool }
+
+func NewCond(l Locker) *Cond { return &Cond{L: l} }
+
+func (c *Cond) Wait() {
+	if !core.Controlled {
+		panic("vsync.Cond is only available under the scheduler")
+	}
+	w := &condWaiter{}
+	c.waiting = append(c.waiting, w)
+	c.L.Unlock()
+	core.Point(core.KWGWait, unsafe.Pointer(c), func() bool { return w.woken })
+	if core.Exiting() {
+		return
+	}
+	core.Done(core.KWGWait, unsafe.Pointer(c), 0)
+	c.L.Lock()
+}
+
+func (c *Cond) Signal() {
+	core.Point(core.KWGAdd, unsafe.Pointer(c), nil)
+	if core.Exiting() {
+		return
+	}
+	if len(c.waiting) > 0 {
+		c.waiting[0].woken = true
+		c.waiting = c.waiting[1:]
+	}
+	core.Done(core.KWGAdd, unsafe.Pointer(c), 1)
+}
+
+func (c *Cond) Broadcast() {
+	core.Point(core.KWGAdd, unsafe.Pointer(c), nil)
+	if core.Exiting() {
+		return
+	}
+	for _, w := range c.waiting {
+		w.woken = true
+	}
+	c.waiting = nil
+	core.Done(core.KWGAdd, unsafe.Pointer(c), 2)
 }
